@@ -14,11 +14,11 @@ use std::collections::{BTreeMap, BTreeSet};
 use std::panic::{catch_unwind, AssertUnwindSafe};
 use std::str::FromStr;
 
-fn caught<T>(f: impl FnOnce() -> T) -> Result<T, ()> {
+pub(crate) fn caught<T>(f: impl FnOnce() -> T) -> Result<T, ()> {
     catch_unwind(AssertUnwindSafe(f)).map_err(|_| ())
 }
 
-fn hx(b: &[u8]) -> String {
+pub(crate) fn hx(b: &[u8]) -> String {
     crate::calls::hexs(b)
 }
 
@@ -51,7 +51,7 @@ pub fn make(rep: Rep, bytes: &[u8], pad: &[u8; 8]) -> Option<Hex> {
     }
 }
 
-fn repr_of(h: &Hex) -> (bool, Vec<u8>, usize) {
+pub(crate) fn repr_of(h: &Hex) -> (bool, Vec<u8>, usize) {
     match h {
         Hex::Vector(v) => (true, v.clone(), v.len()),
         Hex::Bytes(a, l) => (false, a.to_vec(), *l),
@@ -95,6 +95,12 @@ impl Ck<'_> {
 }
 
 fn check_hex(h: &Hex, bytes: &[u8], ctx: &str) -> (Vec<(String, String)>, u64) {
+    let idxs: Vec<usize> = (0..=IMAX).chain([usize::MAX - 1, usize::MAX]).collect();
+    check_hex_at(h, bytes, ctx, &idxs)
+}
+
+/// every accessor of one value against the byte slice, the index/range space spanned by `idxs`
+pub(crate) fn check_hex_at(h: &Hex, bytes: &[u8], ctx: &str, idxs: &[usize]) -> (Vec<(String, String)>, u64) {
     let mut c = Ck { fails: vec![], evals: 0, ctx };
     let b = bytes;
     c.eq("hex.bytes", "bytes()", caught(|| h.bytes().to_vec()), Ok(b.to_vec()));
@@ -122,8 +128,8 @@ fn check_hex(h: &Hex, bytes: &[u8], ctx: &str) -> (Vec<(String, String)>, u64) {
     if !b.is_empty() {
         c.eq("hex.to_bool", "to_bool()", caught(|| h.to_bool()), Ok(b[0] == 1));
     }
-    let idxs: Vec<usize> = (0..=IMAX).chain([usize::MAX - 1, usize::MAX]).collect();
-    for &i in &idxs {
+    let imax = idxs.iter().copied().filter(|i| *i < usize::MAX - 1).max().unwrap_or(0);
+    for &i in idxs {
         c.eq("hex.index", &format!("[{i}]"), caught(|| h[i]), caught(|| b[i]));
         c.eq("hex.byte_at", &format!("byte_at({i})"), caught(|| h.byte_at(i)), caught(|| b[i]));
         c.eq("hex.tail", &format!("tail({i})"), caught(|| h.tail(i).bytes().to_vec()), caught(|| b[i..].to_vec()));
@@ -142,11 +148,11 @@ fn check_hex(h: &Hex, bytes: &[u8], ctx: &str) -> (Vec<(String, String)>, u64) {
             m
         });
         c.eq("hex.index_mut", &format!("[{i}] = x"), got, want);
-        for &j in &idxs {
+        for &j in idxs {
             c.eq("hex.range", &format!("[{i}..{j}]"), caught(|| h[i..j].to_vec()), caught(|| b[i..j].to_vec()));
             c.eq("hex.range_inclusive", &format!("[{i}..={j}]"), caught(|| h[i..=j].to_vec()), caught(|| b[i..=j].to_vec()));
             // a RangeInclusive that was iterated to exhaustion is still a range value (it denotes j+1..j+1)
-            if i <= j && j <= IMAX {
+            if i <= j && j <= imax {
                 let mut r = i..=j;
                 for _ in r.by_ref() {}
                 let (r1, r2) = (r.clone(), r);
@@ -404,7 +410,7 @@ pub struct ConcatEngine {
 
 impl ConcatEngine {
     /// classify one concat result; None = correct
-    fn judge(a: &Hex, b: &Hex, r: &Hex, ab: &[u8], bb: &[u8]) -> Option<(String, String)> {
+    pub(crate) fn judge(a: &Hex, b: &Hex, r: &Hex, ab: &[u8], bb: &[u8]) -> Option<(String, String)> {
         let mut want = ab.to_vec();
         want.extend_from_slice(bb);
         if r.bytes() == want.as_slice() && r.len() == want.len() {
@@ -614,7 +620,7 @@ pub enum LabCase {
 pub struct LabelEngine;
 
 impl LabelEngine {
-    fn check_text(t: &str, seen: &mut BTreeMap<Label, String>, evals: &mut u64, counts: &mut [u64; 3]) -> Option<(String, String)> {
+    pub(crate) fn check_text(t: &str, seen: &mut BTreeMap<Label, String>, evals: &mut u64, counts: &mut [u64; 3]) -> Option<(String, String)> {
         *evals += 1;
         let class = classify_text(t);
         let parsed = match caught(|| Label::from_str(t)) {
@@ -685,7 +691,7 @@ fn canonical_value(t: &str) -> Option<Label> {
     None
 }
 
-fn check_value(l: Label, evals: &mut u64) -> Option<(String, String)> {
+pub(crate) fn check_value(l: Label, evals: &mut u64) -> Option<(String, String)> {
     *evals += 1;
     let text = l.to_string();
     match caught(|| Label::from_str(&text)) {
